@@ -232,6 +232,20 @@ def wrap_facts(facts, nat, boolean, strlist):
     boolean("nip44ChecksAsModelled",
             0 < i_mac < body.find("apply_keystream") < body.find("buffer.len() < 2 + unpadded_len") < body.find("unpadded.is_empty()") < body.find("buffer.len() != 2 + calc_padding(unpadded_len)"),
             "nostr nip44 v2 decrypt_to_bytes: HMAC, keystream, claimed length fits, not empty, padded length exact — in this order")
+    # a guard of mdk's own in front of the nip44 call (none today): `<decoded payload>.len() < N` in util.rs decrypt_with_exporter_secret
+    util = strip_comments(non_test(read("crates/mdk-core/src/util.rs")))
+    dwe = fn_body(util, "decrypt_with_exporter_secret", "fn:decrypt_with_exporter_secret")
+    i_call = dwe.find("nip44::decrypt_to_bytes(")
+    if i_call < 0:
+        raise Missing("util:decrypt_with_exporter_secret:nip44-call")
+    guard = 0
+    gm = re.search(r"\.len\(\)\s*<\s*([A-Z_][A-Z0-9_]*|\d[\d_]*)", dwe[:i_call])
+    if gm:
+        tok = gm.group(1)
+        guard = int(tok.replace("_", "")) if tok[0].isdigit() else const_usize(util, tok, "const:" + tok)
+        if not re.search(r"(BASE64|STANDARD)\s*\.decode\(", dwe[:i_call]):
+            raise Missing("util:decrypt_with_exporter_secret:guard-on-decoded-bytes")
+    nat("mdkMinPayloadLen", guard, "util.rs decrypt_with_exporter_secret: minimum number of base64-DECODED payload bytes required before nostr's nip44 is called (0 = no guard of mdk's own)")
     cp = fn_body(v2, "calc_padding", "nostr:nip44:v2:calc_padding")
     boolean("nip44PaddingAsModelled",
             bool(re.search(r"if\s+len\s*<=\s*32\s*\{\s*return\s+32\s*;\s*\}", cp)) and "1 << (log2_round_down(len - 1) + 1)" in cp
